@@ -1,0 +1,32 @@
+//go:build verif
+
+// Package verifhook provides observation/scheduling points for external
+// verification harnesses. With the "verif" build tag, Point calls the
+// function installed with Set (if any).
+package verifhook
+
+import "sync/atomic"
+
+// Enabled reports whether the hooks are compiled in.
+const Enabled = true
+
+// Func is the type of the function called at every hook point.
+type Func func(name string, args ...any)
+
+var hook atomic.Pointer[Func]
+
+// Set installs (or with nil, removes) the hook function.
+func Set(f Func) {
+	if f == nil {
+		hook.Store(nil)
+		return
+	}
+	hook.Store(&f)
+}
+
+// Point calls the installed hook function (if any).
+func Point(name string, args ...any) {
+	if f := hook.Load(); f != nil {
+		(*f)(name, args...)
+	}
+}
